@@ -137,10 +137,18 @@ TIES = {
     # name: Go package dir (relative to /repo), translator arguments, generated file, Coq files depending on it (in order)
     "list": dict(dir="ds/list", args=[], gen="generated/GoList.v",
                  chain=["gosem/GoListFacts.v", "gosem/GoListLPush.v", "gosem/GoListLRem.v", "gosem/GoListCode.v"]),
+    "set": dict(dir="ds/set", args=[], gen="generated/GoSet.v", chain=["gosem/GoSetFacts.v"]),
+    "codec": dict(dir=".", gen="generated/GoCodec.v", chain=["gosem/GoCodecFacts.v"],
+                  args=["-skipfiles", "verif_on.go,verif_dump.go", "-only",
+                        "Entry.Size,Entry.setEntryHeaderBuf,Entry.Encode,Entry.IsZero,Entry.GetCrc,readMetaData,"
+                        "BPTreeRootIdx.Size,BPTreeRootIdx.Encode,BPTreeRootIdx.GetCrc,BPTreeRootIdx.IsZero,"
+                        "BucketMeta.Size,BucketMeta.Encode,BucketMeta.GetCrc,IsExpired,DB.isFilterEntry,getNewKey,compare"]),
 }
 # which ties a property depends on, and its code-level property file
-TIES_FOR = {"C05": ["list"], "C20": ["list"]}
-CODE_PROPS = {"C05": "properties_code/C05_code.v", "C20": "properties_code/C05_code.v"}
+TIES_FOR = {"C05": ["list"], "C20": ["list"], "C06": ["set"], "C21": ["codec"], "C15": ["codec"], "C01": ["codec"], "C04": ["codec"]}
+CODE_PROPS = {"C05": "properties_code/C05_code.v", "C20": "properties_code/C05_code.v", "C06": "properties_code/C06_code.v",
+              "C21": "properties_code/C21_code.v", "C15": "properties_code/C15_code.v", "C01": "properties_code/C01_code.v",
+              "C04": "properties_code/C04_code.v"}
 
 
 def build_translator():
